@@ -124,6 +124,9 @@ class Exec(Interp):
 
 
     def lookup_global(self, mi: ModuleInfo, name, node=None):
+        ov = getattr(self.ctx, "global_overrides", None)
+        if ov and mi is not None and (mi.name, name) in ov:
+            return ov[(mi.name, name)]
         r = self.ctx.repo.resolve_import(mi, name) if mi is not None else None
         if r is not None:
             return self.static_to_val(r)
@@ -152,6 +155,9 @@ class Exec(Interp):
         if kind == "module":
             return self.ctx.fn_val(FnDesc("module", payload, name=payload), key=("module", payload))
         if kind == "extern":
+            ev = getattr(self.ctx, "extern_values", None)
+            if ev and payload in ev:
+                return ev[payload]
             alias = EXTERN_EXC_ALIASES.get(payload)
             if alias:
                 return V.VCls(self.ctx.cls_named(alias).cid)
